@@ -157,6 +157,7 @@ class Network:
         """
         with self.graph_lock:
             key_material = peer.public_key.key_to_bin()
+            services = list(services)  # Read it once: a one-shot iterable (generator) is empty on the second pass.
             if key_material not in self.services_per_peer:
                 self.services_per_peer[key_material] = set(services)
             else:
